@@ -154,7 +154,7 @@ impl Check for C02 {
                 let wpol = benign(&mut io.borrow_mut().ftape);
                 extra ^= policy_digest(&wpol).rotate_left(5) ^ cap.unwrap_or(0) as u64;
                 fs.plan(super::c01::OUT, FilePlan { write: wpol.clone(), ..Default::default() });
-                match guard(|| lib.save(super::c01::OUT)) {
+                match guard(|| lib.save(fs.sp(super::c01::OUT))) {
                     Err(p) => out.violation = Some(panic_violation("GdsLibrary::save(benign)", &p, json!({"library": lib_artefact(&lib)}))),
                     Ok(Err(e)) => out.violation = Some(Violation { class: "not-transparent".into(), sig: "save/benign/result".into(), detail: format!("save fails under benign schedule {:?} cap {:?}: {}", wpol, cap, e), artefact: art(&lib, &[]) }),
                     Ok(Ok(())) => {
